@@ -25,7 +25,7 @@ PROPS = {
     "C32": {
         "level": "exploration",
         "technique": "runtime monitoring: differential interpreter against std::vector after every operation + lifetime registry (Tracked elements), all 12 trait combinations, first bucket 1..16 via element size; ASan/UBSan build for memory errors",
-        "level_text": "Programs over 46 ConcurrentVector operations (every constructor, assign, push/emplace incl. self-aliasing, the grow_by family, grow_to_at_least, all insert/erase overloads, resize, reserve, pop_back, clear, shrink_to_fit, copy/move/swap, the six comparisons, forward/backward/reverse iteration, iterator arithmetic, []/at/front/back) run on the real container and on std::vector<long>; after every operation size, every element, the index of the returned iterator and the registry (live count == elements held, no construct-over-live, no destroy-of-dead, no use-of-dead, alignment) are compared; at the end both vectors are destroyed and nothing may stay alive. 38 instantiations: 12 trait combinations x first-bucket 2/4/8 (element sizes 128/64/32) plus 1 and 16 for two combinations. Quick: all ordered pairs of a 70-entry canonical alphabet after a fixed prefix + random programs of 3..60 operations; thorough: all triples and 12x more random programs. Held on the programs that were run, not a proof.",
+        "level_text": "Programs over 46 ConcurrentVector operations (every constructor, assign, push/emplace incl. self-aliasing, the grow_by family, grow_to_at_least, all insert/erase overloads, resize, reserve, pop_back, clear, shrink_to_fit, copy/move/swap, the six comparisons, forward/backward/reverse iteration, iterator arithmetic, []/at/front/back) run on the real container and on std::vector<long>; after every operation size, every element, the index of the returned iterator and the registry (live count == elements held, no construct-over-live, no destroy-of-dead, no use-of-dead, alignment) are compared; at the end both vectors are destroyed and nothing may stay alive. 38 instantiations: 12 trait combinations x first-bucket 2/4/8 (element sizes 128/64/32) plus 1 and 16 for two combinations. Quick: all ordered pairs of a 69-entry canonical alphabet after a fixed prefix + random programs of 3..60 operations + dedicated grow_to_at_least(0) cases; thorough: all triples and more random programs. Held on the programs that were run, not a proof.",
         "level_note": "Trusts the Tracked registry (address keyed, plain/asan builds) and std::vector as reference. max_size() is not exercised: it does not compile (names Traits::kMaxVectorSize). Custom SizeTraits cannot be instantiated either (the iterator type names ConcurrentVector<T, Traits> without SizeTraits), so the first-bucket length is varied through sizeof(T).",
         "design_ref": "DESIGN.md §4 C32",
         "rule": "evaluation = one program (operation sequence) on one instantiation; non-trivial = at least two operations completed and at least one mutating operation ran on a non-empty vector; pairs/triples are distinct by construction, random programs are pseudo-random",
@@ -40,7 +40,7 @@ PROPS = {
     "C38": {
         "level": "exploration",
         "technique": "runtime monitoring: differential interpreter against std::vector + lifetime registry + address alignment of every element; alignment decided in the plain build (glibc malloc), memory errors in the ASan/UBSan build",
-        "level_text": "Programs over 20 SmallVector operations (all constructors, copy/move construction and assignment, self assignment, push_back/emplace_back incl. a reference to an own element, pop_back, both resize overloads, erase, reserve, clear, iteration/front/back/data/capacity) for inline capacities 1,2,4,8,64 and element alignments 8,16,32,64; after every operation size, contents, returned position, live count and `address % alignof(T)` of every element (inline and heap) are checked. Quick: all ordered pairs of a 37-entry alphabet from three start states (empty / inline full / on heap) + random programs; thorough: all triples, more random programs.",
+        "level_text": "Programs over 20 SmallVector operations (all constructors, copy/move construction and assignment, self assignment, push_back/emplace_back incl. a reference to an own element, pop_back, both resize overloads, erase, reserve, clear, iteration/front/back/data/capacity) for inline capacities 1,2,4,8,64 and element alignments 8,16,32,64; after every operation size, contents, returned position, live count and `address % alignof(T)` of every element (inline and heap) are checked. Quick: all ordered pairs of a 36-entry alphabet from three start states (empty / inline full / on heap) + random programs + one-program cases for push_back(v[i]) after every (start state, operation); thorough: all triples, more random programs.",
         "level_note": "ASan's allocator returns 16-byte (often 64-byte) aligned blocks, so the alignment clause is decided by the plain configuration; the registry entry runs both.",
         "design_ref": "DESIGN.md §4 C38",
         "rule": "evaluation = one program on one (T, N) instantiation; non-trivial = at least two operations completed, one of them mutating a non-empty vector",
@@ -62,14 +62,14 @@ PROPS = {
                              "finish:invoke", "finish:cleanupNotRun", "chain:0", "chain:5", "align:1", "align:64", "align:128", "align:256"],
         "assumptions": ["every OnceFunction is invoked or cleaned up exactly once by the harness (documented contract)"],
         "runs": {
-            "quick": [{"config": "plain", "shards": 16, "args": {"n": 16}}, {"config": "asan", "shards": 16, "args": {"n": 3}}, {"config": "asan-nosba", "shards": 16, "args": {"n": 3}}],
+            "quick": [{"config": "plain", "shards": 16, "args": {"n": 10}}, {"config": "asan", "shards": 16, "args": {"n": 3}}, {"config": "asan-nosba", "shards": 16, "args": {"n": 3}}],
             "thorough": [{"config": "plain", "shards": 16, "seeds": 2, "args": {"n": 400}}, {"config": "asan", "shards": 16, "args": {"n": 60}}, {"config": "asan-nosba", "shards": 16, "args": {"n": 60}}],
         },
     },
     "C40": {
         "level": "exploration",
         "technique": "runtime monitoring: differential interpreter against std::optional + lifetime registry, all short programs enumerated",
-        "level_text": "Programs over three OpResult slots (default / value-copy / value-move / converting construction, copy and move construction, copy and move assignment in every engaged/disengaged combination, self assignment, assignment from a value, emplace, destruction) run on OpResult<Tracked> and OpResult<alignas(64) Tracked> and on std::optional<long>; after every operation has_value(), operator bool, value(), alignment and the registry (live contained objects == engaged results, nothing constructed over a live object, nothing destroyed twice) are compared. Quick: all ordered pairs of the 87 concrete operations + random programs of 2..30 operations; thorough: all triples.",
+        "level_text": "Programs over three OpResult slots (default / value-copy / value-move / converting construction, copy and move construction, copy and move assignment in every engaged/disengaged combination, self assignment, assignment from a value, emplace, destruction) run on OpResult<Tracked> and OpResult<alignas(64) Tracked> and on std::optional<long>; after every operation has_value(), operator bool, value(), alignment and the registry (live contained objects == engaged results, nothing constructed over a live object, nothing destroyed twice) are compared. Quick: all ordered pairs of the 69 concrete (operation, slot, slot) choices + random programs of 2..30 operations; thorough: all triples.",
         "level_note": "After a move std::optional keeps the source engaged (moved-from value) while OpResult disengages it; that difference is not flagged (the reference follows what the source reports), only the lifetime balance and the destination are checked.",
         "design_ref": "DESIGN.md §4 C40",
         "rule": "evaluation = one program; non-trivial = at least two operations completed including a mutating one",
